@@ -115,7 +115,7 @@ def selftest(wd, out_cases):
 
 
 def run(tier, replay_file):
-    rep = Report(PID, tier, "model_checking")
+    rep = Report(PID, tier, "exploration")
     wd = vlib.workdir(PID, clean=True)
     thorough = tier == "thorough"
     if replay_file:
@@ -134,9 +134,9 @@ def run(tier, replay_file):
     # (M) model checking of the case table / algebra / builder bookkeeping, and case emission
     r_rw, out_cases = run_tlc("mc/MC_Keys_rewind" + sfx, sel)
     tlc["rewind"] = r_rw
-    r_pairs, _ = run_tlc("mc/MC_Keys_pairs" + sfx, sel)
+    r_pairs, _ = run_tlc("mc/MC_Keys_pairs" + sfx, sel, coverage=not thorough)
     tlc["pairs"] = r_pairs
-    r_alg, alg_cases = run_tlc("mc/MC_Keys_alg" + sfx, sel)
+    r_alg, alg_cases = run_tlc("mc/MC_Keys_alg" + sfx, sel, coverage=not thorough)
     tlc["alg"] = r_alg
     r_b, b_cases = run_tlc("mc/MC_Keys_builder" + sfx, sel, coverage=True)
     tlc["builder"] = r_b
@@ -160,9 +160,15 @@ def run(tier, replay_file):
     vias = collections.Counter(c["shape"]["via"] for c in b_cases if c["kind"] == "tx")
     if len(vias) < 4 or not crafted or len(alg_cases) < 50 or not any(c["kind"] == "cb" for c in b_cases):
         raise ToolError("case emission too thin: vias=%s crafted=%d alg=%d" % (dict(vias), len(crafted), len(alg_cases)))
-    ac = r_b.action_counts()
-    if not ac.get("ShapeAny", (0, 0))[0]:
-        raise ToolError("builder action never taken")
+    ac = dict(r_b.action_counts())
+    if not thorough:
+        for rr in (r_pairs, r_alg):
+            for k, v in rr.action_counts().items():
+                ac[k] = max(ac.get(k, (0, 0)), v)
+    need = ["ShapeAny"] + ([] if thorough else ["OpenAny", "CreateFirst", "CreateMore", "AppendAny"])
+    for k in need:
+        if not ac.get(k, (0, 0))[0]:
+            raise ToolError("spec action %s never taken" % k)
 
     # (A) replay
     allc = out_cases + alg_cases + b_cases
@@ -180,9 +186,22 @@ def run(tier, replay_file):
     probe = json.loads(p.stdout.strip().splitlines()[-1])
 
     kinds = collections.Counter(c["kind"] for c in allc)
+
+    def nontrivial(c):
+        if c["kind"] == "out":
+            return len(c["args"]["path"]) >= 1 or c["args"]["fam"] != c["args"]["fmt"]
+        if c["kind"] == "alg":
+            return len(c["terms"]) >= 2 and not c["zero"]
+        return True
+    distinct = set(json.dumps({k: v for k, v in c.items() if k != "idx"}, sort_keys=True) for c in allc if nontrivial(c))
     states = sum(r.distinct for r in tlc.values())
     trans = sum(r.generated for r in tlc.values())
     rep.coverage = {
+        "evaluations": len(allc) * INSTS,
+        "distinct_nontrivial": len(distinct),
+        "rule": "cases are the states TLC selects from the exhaustively checked Keys.tla tables (selection pseudo-random in VERIF_SEED, always covering depth x mode x builder x amount class); "
+                "each is instantiated %d times with seeded wallet seeds / random components / amounts. Distinct = different case record; non-trivial = out-case with depth >= 1 or a foreign message format, "
+                "algebra case with >= 2 terms and a non-zero total, every builder / coinbase shape" % INSTS,
         "states": states, "transitions": trans,
         "traces_validated_against_impl": len(allc) * INSTS,
         "samples": [out_cases[0]["args"], crafted[0]["args"], alg_cases[len(alg_cases) // 2]["terms"], [c for c in b_cases if c["kind"] == "tx"][0]["shape"]],
@@ -194,6 +213,7 @@ def run(tier, replay_file):
         "depth_mode_builder_combinations": len(combos),
         "expected_classes": dict(exp_counts), "builder_entry_points": dict(vias),
         "selftest_flipped_expectations_noticed": flipped,
+        "spec_action_counts": {k: list(v) for k, v in ac.items()},
         "outside_quantifier_probe": probe,
         "tlc_wall_s": round(t_tlc, 1), "replay_wall_s": round(t_replay, 1),
         "checker_cmd": "tlc mc/MC_Keys (rewind, pairs, alg, builder configs); h_keys replay",
